@@ -17,6 +17,17 @@
 (*   pw_hits  occurrences of the password (plain or base64 credential) in  *)
 (*            log records, recorder output, str(conn), repr(conn)          *)
 (* The state is a real counter machine for the statistics clause.          *)
+(*                                                                         *)
+(* phase "operation": the event described above.                           *)
+(* phase "switch_on": the event is the call that ENABLES an observer on    *)
+(*   the observed connection (configure_logger for this connection or for  *)
+(*   future connections followed by the construction, attaching a          *)
+(*   recorder), in the order the history chose; op names the call.  The    *)
+(*   bare side is the same connection left alone (nothing to fail).  "...  *)
+(*   switching them on never turns a successful operation into a failing   *)
+(*   one" is demanded of the switching-on call itself: it returns.  The    *)
+(*   password clause holds for what the call wrote (the "Connection:" log  *)
+(*   record is repr()/str() of the connection).                            *)
 (***************************************************************************)
 EXTENDS Naturals, Sequences, FiniteSets, TLC
 
@@ -27,15 +38,20 @@ Get(f, k) == IF k \in DOMAIN f THEN f[k] ELSE 0
 Put(f, k, v) == [x \in DOMAIN f \cup {k} |-> IF x = k THEN v ELSE f[x]]
 
 Raised(e) == e.obs.kind = "exc"
+IsOp(e) == e.phase = "operation"
 
 Fails(s, e) ==
-     F("NonInterference.SameOutcomeAsBareConnection", e.obs = e.bare)
+     F("NonInterference.SameOutcomeAsBareConnection",
+       ~IsOp(e) \/ e.obs = e.bare)
 \cup F("NonInterference.SuccessNeverTurnedIntoFailure",
-       e.bare.kind # "value" \/ e.obs.kind = "value")
+       ~IsOp(e) \/ e.bare.kind # "value" \/ e.obs.kind = "value")
+\cup F("SwitchOn.EnablingAnObserverNeverFails",
+       e.phase # "switch_on" \/ e.obs.kind = "value")
 \cup F("Statistics.EveryFinishedOperationCountedOnce",
-       ~e.stats \/ e.cnt = Get(s.count, e.op) + 1)
+       ~IsOp(e) \/ ~e.stats \/ e.cnt = Get(s.count, e.op) + 1)
 \cup F("Statistics.FailedOperationsCounted",
-       ~e.stats \/ e.exc_cnt = Get(s.exc, e.op) + (IF Raised(e) THEN 1 ELSE 0))
+       ~IsOp(e) \/ ~e.stats
+       \/ e.exc_cnt = Get(s.exc, e.op) + (IF Raised(e) THEN 1 ELSE 0))
 \cup F("Raw.LastRawRequestEqualsBytesSent",
        e.wire_req = "" \/ e.raw_req = e.wire_req)
 \cup F("Raw.LastRawReplyEqualsBytesReceived",
@@ -43,7 +59,7 @@ Fails(s, e) ==
 \cup F("NoPassword.NeverInLogsRecorderStrRepr", e.pw_hits = 0)
 
 Apply(s, e) ==
-  IF e.stats
+  IF IsOp(e) /\ e.stats
   THEN [count |-> Put(s.count, e.op, Get(s.count, e.op) + 1),
         exc |-> Put(s.exc, e.op,
                     Get(s.exc, e.op) + (IF Raised(e) THEN 1 ELSE 0))]
